@@ -972,15 +972,28 @@ Proof.
   unfold contact. rewrite O. cbn. destruct h; [congruence| |]; exists bl1; auto.
 Qed.
 
-Lemma exec_fail_bans : forall c bl a k now, In a (servers c) -> a_role a = Replica ->
-  find_ban a (step c bl (ExecFail a k now)) = Some (reason_of k, now).
+Lemma exec_fail_bans : forall c bl a k now g, In a (servers c) -> a_role a = Replica ->
+  find_ban a (step c bl (ExecFail a k now g)) = Some (reason_of k, now).
 Proof.
-  intros c bl a k now I R. cbn. unfold in_servers. destruct (in_dec addr_eq_dec a (servers c)); [|contradiction].
+  intros c bl a k now g I R. cbn. unfold in_servers. destruct (in_dec addr_eq_dec a (servers c)); [|contradiction].
   rewrite find_ban_role, R. destruct (addr_eq_dec a a); congruence.
 Qed.
 
-Lemma exec_fail_primary : forall c bl a k now, a_role a = Primary -> step c bl (ExecFail a k now) = bl.
-Proof. intros c bl a k now R. cbn. destruct (in_servers c a); [|reflexivity]. unfold ban. rewrite R. reflexivity. Qed.
+Lemma exec_fail_primary : forall c bl a k now g, a_role a = Primary -> step c bl (ExecFail a k now g) = bl.
+Proof. intros c bl a k now g R. cbn. destruct (in_servers c a); [|reflexivity]. unfold ban. rewrite R. reflexivity. Qed.
+
+(** The ban decision after a statement-time failure does not look at the client: whether the
+    client is still there, closed its socket or reset it, the same ban list results. *)
+Lemma exec_fail_independent_of_client : forall c bl a k now g1 g2,
+  step c bl (ExecFail a k now g1) = step c bl (ExecFail a k now g2).
+Proof. reflexivity. Qed.
+
+Lemma run_independent_of_client : forall c ops bl a k now g1 g2 ops',
+  run c bl (ops ++ ExecFail a k now g1 :: ops') = run c bl (ops ++ ExecFail a k now g2 :: ops').
+Proof.
+  intros. unfold run. rewrite !fold_left_app. cbn [fold_left].
+  rewrite (exec_fail_independent_of_client c _ a k now g1 g2). reflexivity.
+Qed.
 
 (** ** Timeouts *)
 Lemma timeouts_guarded : forall s, known_unguarded s = false -> guard true s <> None.
